@@ -203,6 +203,13 @@ impl ServiceInfo {
             // RFC6763 section 6.1: each TXT record string is prefixed by a
             // single length byte, so it cannot exceed 255 bytes.
             let prop_len = key.len() + prop.val().map_or(0, |v| v.len() + 1);
+            if prop_len == 0 {
+                // An empty key without a value would be encoded as a zero-length
+                // string, which ends the TXT record for a decoder.
+                return Err(Error::Msg(
+                    "TXT property key is empty and has no value".to_string(),
+                ));
+            }
             if prop_len > u8::MAX as usize {
                 return Err(Error::Msg(format!(
                     "TXT property '{}' has length {} bytes, exceeding the 255-byte limit",
